@@ -11,7 +11,7 @@ for d in "${diffs[@]}"; do
   b=$(cd /repo && cargo build --offline 2>&1 | tail -1)
   rm -rf .work/evidence.keep; cp -r evidence .work/evidence.keep
   line=""
-  for p in $(./vx list | cut -d" " -f1); do
+  for p in ${VX_PROPS:-$(./vx list | cut -d" " -f1)}; do
     out=$(./vx check $p 2>&1); c=$?
     if [ $c -ne 0 ]; then line="$line $p=$c"; [ $c -eq 1 ] && bad=1; fi
   done
